@@ -895,6 +895,21 @@ func (rg *ranger) applyCond(v ssa.Value, key string, r itv, c cond, depth int) i
 		if key != "" && key[0] != '@' && exprKey(a) == key {
 			return true
 		}
+		// a parameter of a helper whose summary was injected: the argument bound to it here
+		if pa, ok := a.(*ssa.Parameter); ok {
+			var vfn *ssa.Function
+			switch x := v.(type) {
+			case ssa.Instruction:
+				vfn = x.Parent()
+			case *ssa.Parameter:
+				vfn = x.Parent()
+			}
+			if vfn != nil && vfn != pa.Parent() {
+				if arg := boundArgument(pa, vfn); arg != nil && (arg == v || (key != "" && key[0] != '@' && exprKey(arg) == key)) {
+					return true
+				}
+			}
+		}
 		// comparison made on the same value before/after an integer conversion that preserves sign range
 		sa, sv := stripConv(a), stripConv(v)
 		if sa == sv && !isUnsigned(a.Type()) && !isUnsigned(v.Type()) {
